@@ -220,11 +220,12 @@ def _abs_node(x):
     return ("?", repr(x))
 
 
-def target_kwargs(mode):
+def target_kwargs(mode, spelling=None):
     """mode = ('classes', [iris]) | ('all',) | ('map', [items]); item = ('node', n) | ('focusS', p, o|None) |
-    ('focusO', s|None, p), each with a label"""
+    ('focusO', s|None, p), each with a label.  spelling: the target classes as the user writes them (full IRI,
+    <IRI> or prefixed name of cfg['ns']), parallel to mode[1]"""
     if mode[0] == "classes":
-        return dict(target_classes=list(mode[1]), all_classes_mode=False)
+        return dict(target_classes=list(spelling or mode[1]), all_classes_mode=False)
     if mode[0] == "all":
         return dict(target_classes=None, all_classes_mode=True)
     lines = []
@@ -256,7 +257,8 @@ def _warm_up():
         _WARM = True
 
 
-def run_endpoint(ts, order, mode, cfg, cache, limit=-1, per_query_shuffle=None, timeout=60.0, flip_repeats=False):
+def run_endpoint(ts, order, mode, cfg, cache, limit=-1, per_query_shuffle=None, timeout=60.0, flip_repeats=False,
+                 spelling=None):
     """one real extraction against the fake endpoint.
     -> dict(out, log, passes=[[delivered triples]...], collected=[[targets]...], monitor, sel_answers)"""
     import shexer.io.sparql.query as Q
@@ -282,7 +284,7 @@ def run_endpoint(ts, order, mode, cfg, cache, limit=-1, per_query_shuffle=None, 
         return r
 
     kw = pipe.shaper_kwargs(cfg)
-    kw.update(target_kwargs(mode))
+    kw.update(target_kwargs(mode, spelling))
     kw.update(url_endpoint=URL, disable_endpoint_cache=not cache, limit_remote_instances=limit)
     k, m = cfg["thr"]
     old_q = Q._query_endpoint_json_result
@@ -319,8 +321,8 @@ def nt_doc(ts):
     return pipe.nt_doc([(s, p, nt_escape(o)) for s, p, o in ts])
 
 
-def run_local(ts, mode, cfg, timeout=60.0):
-    extra = target_kwargs(mode)
+def run_local(ts, mode, cfg, timeout=60.0, spelling=None):
+    extra = target_kwargs(mode, spelling)
     c = dict(cfg)
     return pipe.impl_shexc(ts, c, doc=nt_doc(ts), extra_kw=extra, timeout=timeout)
 
@@ -597,6 +599,22 @@ def plant_names(r, ts, cfg, kind):
     return ts, tags
 
 
+NS_EX = ("http://ex.org/", "ex")
+NS_MORE = [("http://xmlns.com/foaf/0.1/", "foaf"), (XSD, "xsd"), ("http://ex.org/voc/", "voc"), ("urn:ex:", "u")]
+
+
+def spell_class(r, c, ns):
+    """a class IRI as a user may hand it over: bare, <bracketed>, or prefix:local with a declared prefix"""
+    k = r.random()
+    if k < 0.5:
+        for n, p in ns:
+            if c.startswith(n) and c[len(n):] and not re.search(r"[/#]", c[len(n):]):
+                return "%s:%s" % (p, c[len(n):])
+    if k < 0.75:
+        return "<%s>" % c
+    return c
+
+
 def gen_mode(r, ts, tau, kind):
     classes = sorted(pipe.class_sizes(ts, tau))
     if kind == "classes":
@@ -861,13 +879,14 @@ def _run_case(case):
     ts, order, mode, cfg, limit = case["ts"], case["order"], case["mode"], case["cfg"], case["limit"]
     runs = {}
     for cache in (True, False):
-        runs[cache] = run_endpoint(ts, order, mode, cfg, cache, limit, flip_repeats=case.get("flip", False))
+        runs[cache] = run_endpoint(ts, order, mode, cfg, cache, limit, flip_repeats=case.get("flip", False),
+                                   spelling=case.get("spelling"))
     T = oracle_targets(ts, mode, cfg, runs[True], limit)
     limited = mode[0] != "map" and (limit >= 0 or cfg["cap"] > 0)
     local = local_T = gT = None
     note = None
     if not limited:
-        local = run_local(ts, mode, cfg)           # instances_cap: "a positive value" caps; 0 does not (README)
+        local = run_local(ts, mode, cfg, spelling=case.get("spelling"))   # instances_cap: "a positive value" caps; 0 does not (README)
     elif any(q[0] == "other" for q in runs[True]["log"] + runs[False]["log"]):
         note = "unrecognised_query"                # the instances the endpoint returned are not known to the oracle
     else:
@@ -880,9 +899,9 @@ def _run_case(case):
             if any(v > cfg["cap"] for v in sizes.values()):
                 note = "cap_order_dependent"       # which instances the tracker keeps depends on delivery order
             else:
-                local_T = run_local(gT, mode, cfg)
+                local_T = run_local(gT, mode, cfg, spelling=case.get("spelling"))
         else:
-            local_T = run_local(gT, mode, cfg)
+            local_T = run_local(gT, mode, cfg, spelling=case.get("spelling"))
     fails, nitems = oracle(case, runs, local, local_T, gT if local_T is not None else None)
     rcs = sorted(root_causes(ts, mode, cfg, limit, T, case.get("flip", False)))
     res = {"fails": fails, "rcs": rcs, "nitems": nitems, "note": note, "corr": [], "unmodelled": 0,
@@ -932,6 +951,14 @@ def gen_cases(tier, rnd, n):
             if twin:
                 planted.append("twins_" + twin)
         mode = gen_mode(r, ts, cfg["tau"], kind)
+        spelling = None
+        if r2.random() < 0.35:
+            # the user declares prefixes and may write the target classes with them (or between angle brackets)
+            cfg["ns"] = [NS_EX] + [n for n in NS_MORE if r2.random() < 0.5]
+            r2.shuffle(cfg["ns"])
+            if mode[0] == "classes":
+                spelling = [spell_class(r2, c, cfg["ns"]) for c in mode[1]]
+                planted.append("class_spelling")
         if in_dom and mode[0] == "map":
             mode = ("map", [it for it in mode[1] if it[0] != "focusO"] or [("node", "http://ex.org/n0")])
         limit = -1
@@ -948,13 +975,15 @@ def gen_cases(tier, rnd, n):
         if i % 2:
             r.shuffle(order)
         cases.append({"ts": ts, "order": order, "mode": mode, "cfg": cfg, "limit": limit, "i": i,
-                      "stream": "domain" if in_dom else "out-of-domain", "keep_vm": False, "planted": planted})
+                      "stream": "domain" if in_dom else "out-of-domain", "keep_vm": False, "planted": planted,
+                      "spelling": spelling})
     return cases
 
 
 def case_json(case):
     return {"ts": [[list(s), p, list(o)] for s, p, o in case["ts"]], "order": case["order"],
-            "mode": case["mode"], "cfg": case["cfg"], "limit": case["limit"], "flip": case.get("flip", False)}
+            "mode": case["mode"], "cfg": case["cfg"], "limit": case["limit"], "flip": case.get("flip", False),
+            "spelling": case.get("spelling")}
 
 
 def case_from_json(d):
@@ -969,7 +998,7 @@ def case_from_json(d):
     cfg["thr"] = tuple(cfg["thr"])
     cfg["ns"] = [tuple(x) for x in cfg.get("ns", [])]
     return {"ts": [(tuple(s), p, tuple(o)) for s, p, o in d["ts"]], "order": list(d["order"]), "mode": mode, "cfg": cfg,
-            "limit": d["limit"], "flip": d.get("flip", False), "keep_vm": False}
+            "limit": d["limit"], "flip": d.get("flip", False), "keep_vm": False, "spelling": d.get("spelling")}
 
 
 def load_corpus():
